@@ -1,18 +1,34 @@
 """Module-level task bodies for the simulator (pynenc refuses nested functions).
 
-Behaviour is determined by the JSON-able arguments generated per run; bodies
-report enter/exit to the harness through `PROBE` (side channel keyed by
-invocation id).
+Behaviour is determined entirely by the JSON-able arguments generated per run;
+bodies report enter/exit/attempts to the harness through `PROBE` (side channel
+keyed by invocation id) and count attempts per program node in `ATTEMPTS`.
 """
 
 from __future__ import annotations
 
+import time as _time
 from typing import Any
 
 from pynenc import context
+from pynenc.exceptions import RetryError
 
-PROBE: Any = None  # set by the harness: callable(event, invocation_id, payload)
-GLOBAL_APP: Any = None  # fallback app for sync mode
+PROBE: Any = None  # callable(event, invocation_id, payload) set by the harness
+GLOBAL_APP: Any = None  # fallback app for sync mode (no runner thread sets the context)
+ATTEMPTS: dict[str, int] = {}  # executions per program node name
+SLEEP: Any = None  # callable(seconds) -> simulated work
+
+
+class SimError(Exception):
+    """A non-retriable application error raised by scripted bodies."""
+
+
+class SimRetriable(Exception):
+    """An application error that tasks may list in retry_for."""
+
+
+def reset() -> None:
+    ATTEMPTS.clear()
 
 
 def _app() -> Any:
@@ -27,7 +43,7 @@ def _self_task(name: str) -> Any:
 
 def _inv_id(name: str) -> str | None:
     try:
-        return _self_task(name).invocation.invocation_id
+        return str(_self_task(name).invocation.invocation_id)
     except Exception:  # noqa: BLE001
         return None
 
@@ -37,6 +53,14 @@ def _probe(ev: str, name: str, payload: Any = None) -> None:
         PROBE(ev, _inv_id(name), payload)
 
 
+def _work(seconds: float) -> None:
+    if seconds and seconds > 0:
+        if SLEEP is not None:
+            SLEEP(seconds)
+        else:
+            _time.sleep(seconds)
+
+
 def add(x: int, y: int) -> int:
     _probe("enter", "add", (x, y))
     r = x + y
@@ -44,20 +68,109 @@ def add(x: int, y: int) -> int:
     return r
 
 
+def _make_exc(kind: str, node: str, attempt: int) -> Exception:
+    if kind == "retry":
+        return RetryError()
+    if kind == "retriable":
+        return SimRetriable(node, attempt)
+    if kind == "value":
+        return ValueError(f"{node}#{attempt}")
+    return SimError(node, attempt)
+
+
+def prog(spec: dict) -> int:
+    """General program node.
+
+    spec = {"n": name, "v": int, "kids": [spec...], "group": bool, "work": float,
+            "fail": [attempt numbers that raise], "exc": "retry"|"retriable"|"value"|"sim",
+            "fail_after_kids": bool}
+    Returns v + sum(kids).  The n-th execution of node `n` is attempt n.
+    """
+    node = str(spec.get("n", "?"))
+    ATTEMPTS[node] = attempt = ATTEMPTS.get(node, 0) + 1
+    _probe("enter", "prog", (node, attempt))
+    try:
+        _work(float(spec.get("work", 0) or 0))
+        fails = spec.get("fail") or []
+        if attempt in fails and not spec.get("fail_after_kids"):
+            raise _make_exc(spec.get("exc", "retry"), node, attempt)
+        t = _self_task("prog")
+        total = int(spec.get("v", 0))
+        kids = spec.get("kids") or []
+        if kids:
+            if spec.get("group"):
+                total += sum(t.parallelize([(k,) for k in kids]).results)
+            else:
+                invs = [t(k) for k in kids]
+                for inv in invs:
+                    total += inv.result
+        if attempt in fails:
+            raise _make_exc(spec.get("exc", "retry"), node, attempt)
+        return total
+    finally:
+        _probe("exit", "prog", (node, attempt))
+
+
 def tree(spec: dict) -> int:
-    """spec = {"v": int, "kids": [spec...], "group": bool, "work": float}
-    returns v + sum(results of kids)."""
+    """spec = {"v": int, "kids": [spec...], "group": bool}; v + sum(kids)."""
     _probe("enter", "tree", spec.get("v"))
     t = _self_task("tree")
     total = int(spec.get("v", 0))
     kids = spec.get("kids") or []
     if kids:
         if spec.get("group"):
-            grp = t.parallelize([(k,) for k in kids])
-            total += sum(grp.results)
+            total += sum(t.parallelize([(k,) for k in kids]).results)
         else:
             invs = [t(k) for k in kids]
             for inv in invs:
                 total += inv.result
     _probe("exit", "tree", total)
     return total
+
+
+def keyed(key: Any, other: Any = 0, work: float = 0.0) -> Any:
+    """Body of the concurrency-control tasks: holds RUNNING for `work` seconds."""
+    _probe("enter", "keyed", (key, other))
+    try:
+        _work(work)
+        return [key, other]
+    finally:
+        _probe("exit", "keyed", (key, other))
+
+
+def keyed2(a: Any, b: Any = 0, c: Any = 0, work: float = 0.0) -> Any:
+    """Three-argument variant (key argument subsets)."""
+    _probe("enter", "keyed2", (a, b, c))
+    try:
+        _work(work)
+        return [a, b, c]
+    finally:
+        _probe("exit", "keyed2", (a, b, c))
+
+
+VALUES: dict[str, Any] = {}  # token -> python value / exception to return or raise
+
+
+def value(token: str, work: float = 0.0) -> Any:
+    """Returns (or raises) the object the harness stored under `token`."""
+    _probe("enter", "value", token)
+    try:
+        _work(work)
+        v = VALUES[token]
+        if isinstance(v, BaseException):
+            raise v
+        return v
+    finally:
+        _probe("exit", "value", token)
+
+
+def echo(**kwargs: Any) -> Any:
+    """Returns its keyword arguments as the worker saw them."""
+    _probe("enter", "echo", sorted(kwargs))
+    _probe("exit", "echo", None)
+    return kwargs
+
+
+def sig(a: Any, b: Any = 2, *, c: Any = 3, d: Any = None) -> Any:
+    """A signature with defaults and keyword-only parameters (call spellings)."""
+    return [a, b, c, d]
